@@ -775,4 +775,106 @@ Proof.
   rewrite H2, He. change (map ent (order b)) with (abs b). rewrite fold_put_fresh; auto.
   rewrite abs_keys. apply (ok_nodup b Hb).
 Qed.
+(* ---- traversal through iterators ------------------------------------------------------------------
+   Walking the prev pointers from the end sentinel until _begin.item is met visits the items in the reverse
+   of the iteration order.  Needs: endItem.prev designates the last item, and no two live items share an
+   address (slot) - the walk identifies an item by the pointer it holds. *)
+Definition slots_nodup (t : table) : Prop := NoDup (map nslot (order t)).
+
+Lemma slot_eqb_eq (a b : slot) : slot_eqb a b = true <-> a = b.
+Proof.
+  unfold slot_eqb. destruct a as [a1 a2], b as [b1 b2]. cbn [fst snd]. rewrite andb_true_iff, !Z.eqb_eq.
+  split; [intros [-> ->]; reflexivity | intros H; inversion H; auto].
+Qed.
+
+Lemma slot_eqb_refl (a : slot) : slot_eqb a a = true.
+Proof. apply slot_eqb_eq. reflexivity. Qed.
+
+Lemma slot_eqb_neq (a b : slot) : a <> b -> slot_eqb a b = false.
+Proof. intros H. destruct (slot_eqb a b) eqn:E; auto. apply slot_eqb_eq in E. contradiction. Qed.
+
+Lemma ipos_eqb_refl (p : ipos) : ipos_eqb p p = true.
+Proof. destruct p; cbn [ipos_eqb]; auto. apply slot_eqb_refl. Qed.
+
+Lemma node_at_nth (l : list node) i n :
+  NoDup (map nslot l) -> nth_error l i = Some n -> node_at (nslot n) l = Some n.
+Proof.
+  revert i; induction l as [|h t IH]; intros [|i] Hn Hi; cbn [nth_error] in Hi; try discriminate.
+  - inversion Hi; subst. cbn [node_at]. rewrite slot_eqb_refl. reflexivity.
+  - cbn [map] in Hn. inversion Hn as [|? ? Hni Hn']; subst. cbn [node_at].
+    rewrite slot_eqb_neq; [apply (IH i Hn' Hi)|].
+    intros E. apply Hni. rewrite <- E. apply in_map. eapply nth_error_In; eauto.
+Qed.
+
+Lemma prev_in_nth (l : list node) i n m pv :
+  NoDup (map nslot l) -> nth_error l (S i) = Some n -> nth_error l i = Some m ->
+  prev_in (nslot n) pv l = Some (PItem (nslot m)).
+Proof.
+  revert i pv; induction l as [|h t IH]; intros i pv Hn Hs Hi; [destruct i; discriminate|].
+  cbn [map] in Hn. inversion Hn as [|? ? Hni Hn']; subst. cbn [prev_in]. cbn [nth_error] in Hs.
+  assert (Hne : nslot n <> nslot h).
+  { intros E. apply Hni. rewrite <- E. apply in_map. eapply nth_error_In; eauto. }
+  rewrite (slot_eqb_neq _ _ Hne).
+  destruct i as [|i]; cbn [nth_error] in Hi.
+  - inversion Hi; subst m. destruct t as [|h2 t2]; [discriminate|]. cbn [nth_error] in Hs. inversion Hs; subst h2.
+    cbn [prev_in]. rewrite slot_eqb_refl. reflexivity.
+  - apply (IH i _ Hn' Hs Hi).
+Qed.
+
+Lemma last_slot_nth (l : list node) i m : nth_error l i = Some m -> length l = S i -> last_slot l = Some (nslot m).
+Proof.
+  revert i; induction l as [|h t IH]; intros [|i] Hi Hl; cbn [nth_error length] in *; try discriminate.
+  - inversion Hi; subst. destruct t; [reflexivity|discriminate].
+  - destruct t as [|h2 t2]; [destruct i; discriminate|]. rewrite last_slot_cons by discriminate. apply (IH i Hi). lia.
+Qed.
+
+(* the pointer an iterator at rank i holds (rank = length: end()) *)
+Definition pos_at (l : list node) (i : nat) : ipos :=
+  match nth_error l i with Some n => PItem (nslot n) | None => PEnd end.
+
+Lemma pos_at_0 (l : list node) : pos_at l 0 = begin_pos l.
+Proof. destruct l; reflexivity. Qed.
+
+Lemma pos_at_S_not_begin (l : list node) i :
+  NoDup (map nslot l) -> (S i <= length l)%nat -> ipos_eqb (pos_at l (S i)) (begin_pos l) = false.
+Proof.
+  intros Hn Hi. unfold pos_at. destruct l as [|h t]; [cbn [length] in Hi; lia|]. cbn [begin_pos nth_error].
+  destruct (nth_error t i) as [n|] eqn:E; [|reflexivity]. cbn [ipos_eqb]. apply slot_eqb_neq.
+  cbn [map] in Hn. inversion Hn as [|? ? Hni Hn']; subst. intros Eq. apply Hni. rewrite <- Eq. apply in_map. eapply nth_error_In; eauto.
+Qed.
+
+Lemma walk_back_at ep (l : list node) :
+  NoDup (map nslot l) -> ep = last_slot l ->
+  forall i fuel, (i <= length l)%nat -> (i < fuel)%nat ->
+  walk_back fuel ep l (pos_at l i) = Some (rev (map ent (firstn i l))).
+Proof.
+  intros Hn Hep. induction i as [|i IH]; intros fuel Hi Hf; (destruct fuel as [|f]; [lia|]); cbn [walk_back].
+  - rewrite pos_at_0, ipos_eqb_refl. reflexivity.
+  - rewrite pos_at_S_not_begin by assumption.
+    destruct (nth_error l i) as [m|] eqn:Em; [|apply nth_error_None in Em; lia].
+    assert (Hprev : prev_pos ep l (pos_at l (S i)) = Some (PItem (nslot m))).
+    { unfold pos_at. destruct (nth_error l (S i)) as [n|] eqn:En; cbn [prev_pos].
+      - apply (prev_in_nth l i n m PNull Hn En Em).
+      - apply nth_error_None in En. rewrite Hep, (last_slot_nth l i m Em) by lia. reflexivity. }
+    rewrite Hprev, (node_at_nth l i m Hn Em).
+    assert (Hp : PItem (nslot m) = pos_at l i) by (unfold pos_at; rewrite Em; reflexivity).
+    rewrite Hp, (IH f) by lia. rewrite (firstn_S_nth l i m Em), map_app, rev_app_distr. reflexivity.
+Qed.
+
+(* backwards iteration = reverse of forwards iteration *)
+Lemma iter_back_rev (t : table) :
+  end_prev t = last_slot (order t) -> slots_nodup t -> iter_back t = Some (rev (entries t)).
+Proof.
+  intros Hep Hn. unfold iter_back.
+  assert (E : PEnd = pos_at (order t) (length (order t))).
+  { unfold pos_at. rewrite (proj2 (nth_error_None (order t) (length (order t)))) by lia. reflexivity. }
+  rewrite E, (walk_back_at (end_prev t) (order t) Hn Hep) by lia. rewrite firstn_all. reflexivity.
+Qed.
+
+Lemma iter_fwd_entries (t : table) : iter_fwd t = Some (entries t).
+Proof. reflexivity. Qed.
+
+Lemma iter_back_rev_fwd (t : table) :
+  end_prev t = last_slot (order t) -> slots_nodup t -> iter_back t = option_map (@rev (K * Z)) (iter_fwd t).
+Proof. intros Hep Hn. rewrite (iter_back_rev t Hep Hn). reflexivity. Qed.
 End Proofs.
